@@ -42,10 +42,25 @@ RULE = ('strata: X = exhaustive layering of 2 names over 5 layer slots (register
         'neighbours in sorted order) that contain files; every ignored file defines EVERY name (also the never-defined one) with a role '
         'of its own (a few hold no policy text at all: empty or editor swap bytes), is created in shuffled order with the regular files, '
         'and no ignored role may ever pass; part of these configurations then go through a history in which dot-files also appear and '
-        'disappear (an editor opening / closing a file) between the loads.')
+        'disappear (an editor opening / closing a file) between the loads. '
+        'R / RX = layerings in which, for some names, one or more FILE layers (main file, any directory file) spell exactly the check '
+        'string of the registered default - textually equal, or a textual variant of it with extra spaces / parentheses - while the '
+        'other layers keep their own roles: the effective definition is still the last layer\'s, so when the last definer restates '
+        'the default the decision is the default\'s and no earlier layer\'s role may pass (RX = exhaustive for one name: main file, '
+        'd1/a, d1/b, d2/a each absent / own role / default restated verbatim / restated as a variant = 256 layerings; R = random over '
+        'the files of Y, about a third then go through a history whose re-saved files may restate the default as well); the same '
+        'layerings carry the ROUTE by which policy_file and policy_dirs are configured as a dimension: set_override with a list (as '
+        'everywhere else), conf.set_default, or a real configuration file given as --config-file that holds [oslo_policy] with '
+        'policy_file = ... and one policy_dirs = ... line per directory (absolute names, or relative ones that resolve against the '
+        'directory of the configuration file); the expected layering does not depend on the route.')
 ASSUMPTIONS = ['lexicographic order = Python sorted() of the file names (code-point order)',
                'oslo_policy.opts._options is swapped for a pristine deep copy around cases that call set_defaults',
-               'single-role credentials distinguish the layers because each layer uses its own role']
+               'single-role credentials distinguish the layers because each layer uses its own role',
+               'a file layer that restates the registered default is observed through the role of the registered default: such a '
+               'layer and the default decide alike, which is all the statement asks of it (strata R / RX)',
+               'a configuration file holds a multi-valued option as one line per value (oslo.config accumulates repeated keys in '
+               'file order); the configuration file lives in the sandbox tree and no default configuration files / directories of '
+               'the host are read']
 LEVEL_TEXT = ('The file-selection table and the small layering space are enumerated completely; larger layerings '
               '(sort order, dot-files, sub-directories, missing directories, formats) are sampled. Finite parts exhaustive, '
               'the rest structured sampling.')
@@ -61,13 +76,26 @@ MIN = {'evaluations': 600, 'decisions': 5000, 'allow_decisions': 300, 'file_sele
        'layerings_three_or_more_dot_files_in_one_directory': 60, 'layerings_adjacent_dot_files_in_first_directory': 40,
        'layerings_adjacent_dot_files_in_middle_directory': 40, 'layerings_adjacent_dot_files_in_last_directory': 40,
        'layerings_dot_file_beside_same_named_regular_file': 50, 'layerings_several_subdirectories_in_one_directory': 60,
-       'layerings_dot_named_subdirectory_with_files': 60, 'histories_with_dot_file_appearing_or_disappearing': 25}
+       'layerings_dot_named_subdirectory_with_files': 60, 'histories_with_dot_file_appearing_or_disappearing': 25,
+       'layerings_file_layer_restates_registered_default': 250, 'layerings_restated_default_as_textual_variant': 120,
+       'layerings_last_definer_restates_default_after_differing_layer': 120,
+       'layerings_restating_layer_between_differing_layers': 40,
+       'history_steps_last_definer_restates_default_after_differing_layer': 30,
+       'restated_default_decisions': 4000,
+       'layerings_configured_by_set_override': 1500, 'layerings_configured_by_set_default': 120,
+       'layerings_configured_by_config_file': 120, 'layerings_config_file_two_or_more_policy_dirs_lines': 120,
+       'layerings_config_file_relative_names': 30, 'layerings_config_file_with_missing_directory_line': 40}
 ANCHORS = ['oslo_policy.policy:Enforcer.load_rules', 'oslo_policy.policy:Enforcer._walk_through_policy_directory',
            'oslo_policy.policy:pick_default_policy_file', 'oslo_policy.policy:parse_file_contents',
            'oslo_policy.policy:Enforcer.enforce']
 REQUIRED_ANCHORS = ['oslo_policy.policy:Enforcer.enforce', 'oslo_policy.policy:Enforcer.load_rules']
 N = {'quick': 1500, 'thorough': 60000}
 N_IGNORED = {'quick': 320, 'thorough': 12000}
+N_RESTATE = {'quick': 480, 'thorough': 15000}
+# spellings of the registered default's check string (the default itself is registered as DEFAULT_SPELLINGS[0]): verbatim, extra
+# spaces, parentheses, both - a file layer that restates the default uses one of them (version -1 - <index>, see role_of)
+DEFAULT_SPELLINGS = ['role:default', '  role:default ', '(role:default)', '( role:default )']
+ROUTES = ['override', 'set_default', 'config_file']
 
 FILESETS = {'d1': ['B.yaml', 'a.yaml', 'a10.json', 'a2.yaml', '.hidden.yaml'], 'd2': ['z.json', 'Z.yaml'], 'd3': ['m.yaml']}
 DIRS = ['d1', 'd2', 'dmissing', 'd3']
@@ -78,20 +106,102 @@ def lid_role(lid):
 
 
 def role_of(lid, ver=0):
-    """Role used by version `ver` of layer `lid` (version 0 = the content the configuration starts with)."""
+    """Role used by version `ver` of layer `lid` (version 0 = the content the configuration starts with; a negative version =
+    the layer restates the registered default, spelling -1 - ver: the role is the registered default's)."""
+    if ver < 0:
+        return 'default'
     return lid_role(lid) + ('_v%d' % ver if ver else '')
 
 
-def fold_now(dirs, cur, pth):
-    """Expected effective layer of every name for the files as they are NOW: cur = {lid: {name: version}} of the registered
-    default and of every file that currently exists, pth = {lid: path relative to the tree}."""
+def text_of(lid, ver=0):
+    """Check string that version `ver` of layer `lid` gives a name."""
+    if ver < 0:
+        return DEFAULT_SPELLINGS[(-1 - ver) % len(DEFAULT_SPELLINGS)]
+    return 'role:' + role_of(lid, ver)
+
+
+def first_version(case, lid, n):
+    """Version of name n in layer lid as the configuration starts: 0, or the restated default (case['restate'] = {lid: {name:
+    index of the spelling}}; only file layers restate, and only names the registered default defines)."""
+    k = ((case.get('restate') or {}).get(lid) or {}).get(n)
+    return 0 if k is None or lid == 'default' else -1 - k
+
+
+def count_restated(ctx, per_name, prefix):
+    """per_name = {name: [version, ...]} of the FILE layers that define the name, in the documented order (names without a
+    registered default left out).  Counts the configurations in which a layer restates the default / is the last definer while an
+    earlier one differs / sits between two layers that differ."""
+    some = variant = last = between = False
+    for n, vs in per_name.items():
+        if not any(v < 0 for v in vs):
+            continue
+        some = True
+        variant = variant or any(v < -1 for v in vs)
+        if vs[-1] < 0 and any(v >= 0 for v in vs[:-1]):
+            last = True
+        if any(vs[k] < 0 and any(v >= 0 for v in vs[:k]) and any(v >= 0 for v in vs[k + 1:]) for k in range(len(vs))):
+            between = True
+    if prefix == 'layerings':
+        if some:
+            ctx.count('layerings_file_layer_restates_registered_default')
+        if variant:
+            ctx.count('layerings_restated_default_as_textual_variant')
+        if between:
+            ctx.count('layerings_restating_layer_between_differing_layers')
+    if last:
+        ctx.count(prefix + '_last_definer_restates_default_after_differing_layer')
+    return {n for n, vs in per_name.items() if vs and vs[-1] < 0 and any(v >= 0 for v in vs[:-1])}
+
+
+def make_conf(ctx, tree, case):
+    """The ConfigOpts of a layering, policy_file / policy_dirs configured by case['route']: set_override (default), set_default, or
+    a real configuration file in the tree.  Nothing of the host's configuration is read on any route."""
+    route = case.get('route') or 'override'
+    relative = bool(case.get('relative'))
+    dirs = [tree.path(d) for d in case['dirs']]
+    ctx.count('layerings_configured_by_' + {'override': 'set_override', 'set_default': 'set_default', 'config_file': 'config_file'}[route])
+    if route == 'override':
+        return tree.conf(policy_dirs=dirs, relative=relative)
+    from oslo_config import cfg
+    from oslo_policy import opts
+    rel = (lambda p: os.path.relpath(p, tree.root)) if relative else (lambda p: p)
+    conf = cfg.ConfigOpts()
+    if route == 'config_file':
+        lines = ['policy_dirs = %s' % rel(d) for d in dirs]
+        lines.insert(case.get('cfgpos', 0) % (len(lines) + 1), 'policy_file = %s' % rel(tree.main))
+        path = tree.write_text('svc.conf', '[DEFAULT]\n\n[oslo_policy]\n' + '\n'.join(lines) + '\n')
+        # relative names are looked up in the directory of the configuration file (= the tree root)
+        conf(['--config-file', path], default_config_dirs=[], default_config_files=[])
+        opts._register(conf)
+        if len(dirs) >= 2:
+            ctx.count('layerings_config_file_two_or_more_policy_dirs_lines')
+        if relative:
+            ctx.count('layerings_config_file_relative_names')
+        if 'dmissing' in case['dirs']:
+            ctx.count('layerings_config_file_with_missing_directory_line')
+        return conf
+    conf(['--config-dir', tree.root] if relative else [], default_config_dirs=[], default_config_files=[])
+    opts._register(conf)
+    conf.set_default('policy_file', rel(tree.main), group='oslo_policy')
+    conf.set_default('policy_dirs', [rel(d) for d in dirs], group='oslo_policy')
+    return conf
+
+
+def fold_order(dirs, cur, pth):
+    """The layers that exist NOW, in the documented order (dot-files left out)."""
     order = [lid for lid in ('default', 'main') if lid in cur]
     for d in dirs:
         in_dir = sorted((lid for lid in cur if pth.get(lid) and os.path.dirname(pth[lid]) == d),
                         key=lambda lid: os.path.basename(pth[lid]))
         order += [lid for lid in in_dir if not os.path.basename(pth[lid]).startswith('.')]
+    return order
+
+
+def fold_now(dirs, cur, pth):
+    """Expected effective layer of every name for the files as they are NOW: cur = {lid: {name: version}} of the registered
+    default and of every file that currently exists, pth = {lid: path relative to the tree}."""
     eff = {}
-    for lid in order:
+    for lid in fold_order(dirs, cur, pth):
         for n, v in cur[lid].items():
             eff[n] = role_of(lid, v)
     return eff
@@ -224,7 +334,7 @@ def _check_layering(ctx, case, tree):
         if case.get('subdir'):
             tree.mkdir('d1/sub')
             tree.write('d1/sub/x.yaml', {n: 'role:SUB' for n in names}, 'json')
-        content = {l[0]: {n: 'role:' + lid_role(l[0]) for n in l[2]} for l in case['layers']}
+        content = {l[0]: {n: text_of(l[0], first_version(case, l[0], n)) for n in l[2]} for l in case['layers']}
         paths = {l[0]: l[1] for l in case['layers']}
         ign = case.get('ignored') or []
         ign_by_id = {'ign:%d' % k: e for k, e in enumerate(ign)}
@@ -245,7 +355,12 @@ def _check_layering(ctx, case, tree):
             order += [l for l in in_dir if not os.path.basename(l[1]).startswith('.')]
         for lid, p, defs in order:
             for n in defs:
-                eff[n] = lid_role(lid)
+                eff[n] = role_of(lid, first_version(case, lid, n))
+        defaulted = {n for l in case['layers'] if l[0] == 'default' for n in l[2]}
+        last_restates = set()
+        if case.get('restate'):
+            last_restates = count_restated(ctx, {n: [first_version(case, l[0], n) for l in order if l[0] != 'default' and n in l[2]]
+                                                 for n in names if n in defaulted}, 'layerings')
         if case.get('cwd'):
             # look-alikes of every relative name the configuration uses, in the working directory (which is not a configuration
             # directory): the main file and every configured directory, each defining EVERY name (also the never-defined one)
@@ -259,7 +374,7 @@ def _check_layering(ctx, case, tree):
                     ctx.count('cwd_decoy_relative_layerings')
                     if decoy.lacking:
                         ctx.count('cwd_decoy_name_missing_in_config_dir')
-        conf = tree.conf(policy_dirs=[tree.path(d) for d in case['dirs']], relative=bool(case.get('relative')))
+        conf = make_conf(ctx, tree, case)
         enf = policy.Enforcer(conf)
         scoped = set()
         for lid, p, defs in case['layers']:
@@ -286,6 +401,8 @@ def _check_layering(ctx, case, tree):
                 ctx.count('decisions')
                 if r in ign_roles:
                     ctx.count('ignored_entry_decisions')
+                if case.get('restate'):
+                    ctx.count('restated_default_decisions')
                 if got is True:
                     ctx.count('allow_decisions')
                 if n in scoped:
@@ -310,10 +427,37 @@ def _check_layering(ctx, case, tree):
                         key = 'undefined-name-allowed'
                     elif r in ('SUB',) or r.endswith('_hidden_yaml') or r in ign_roles:
                         key = 'ignored-file-applied'
+                    elif n in last_restates:
+                        # the last definer spells the registered default, an earlier file layer does not, and the decision is
+                        # not the default's
+                        key = 'layer-restating-registered-default-is-not-the-last-word'
                     else:
                         key = 'wrong-layer-wins'
                     detail = {'name': n, 'role': r, 'expected_layer': eff.get(n), 'observed': got,
                               'layers': {l[0]: sorted(l[2]) for l in case['layers']}}
+                    if case.get('restate'):
+                        detail['layers_restating_the_registered_default'] = {
+                            lid: {m: DEFAULT_SPELLINGS[k % len(DEFAULT_SPELLINGS)] for m, k in d.items()}
+                            for lid, d in case['restate'].items()}
+                        detail['documented_order'] = [l[0] for l in order]
+                    if (case.get('route') or 'override') != 'override' and not isinstance(got, str) and r != 'CWD':
+                        # the same files, the same registered defaults, the options given with set_override: if that enforcer
+                        # decides as expected, the route by which the options were configured changed the layering
+                        detail['route'] = case['route']
+                        try:
+                            other = policy.Enforcer(tree.conf(policy_dirs=[tree.path(d) for d in case['dirs']],
+                                                              relative=bool(case.get('relative'))))
+                            for l in case['layers']:
+                                if l[0] == 'default':
+                                    for m in l[2]:
+                                        other.register_default(policy.RuleDefault(m, content['default'][m]))
+                            detail['observed_with_set_override'] = bool(other.enforce(n, {}, {'roles': [r]}))
+                            detail['policy_dirs_as_configured'] = list(conf.oslo_policy.policy_dirs)
+                            detail['policy_dirs_with_set_override'] = list(other.conf.oslo_policy.policy_dirs)
+                            if detail['observed_with_set_override'] == want:
+                                key = 'configuration-route-changes-the-layering'
+                        except Exception as e:
+                            detail['observed_with_set_override'] = 'EXC:' + type(e).__name__
                     if ign:
                         # which entry decides instead: the roles that do pass for this name
                         passing = []
@@ -351,14 +495,14 @@ def _check_layering(ctx, case, tree):
         if case.get('history'):
             # the operator keeps editing the files under the living enforcer; after every step (file operations, then a load)
             # each name must be decided by the documented fold of the files AS THEY ARE NOW
-            cur = {l[0]: {n: 0 for n in l[2]} for l in case['layers']}
+            cur = {l[0]: {n: first_version(case, l[0], n) for n in l[2]} for l in case['layers']}
             pth = {l[0]: l[1] for l in case['layers'] if l[1]}
             # a check string can only stem from content that existed at some time: per name, the roles of every (layer, version)
             # that ever defined it, plus the ignored sub-directory, the decoy and a role nobody uses
             cand = {n: {'SUB', 'nobody'} | ({'CWD'} if case.get('cwd') else set()) | ign_roles for n in names}
             for lid, defs in cur.items():
-                for n in defs:
-                    cand[n].add(role_of(lid))
+                for n, v in defs.items():
+                    cand[n].add(role_of(lid, v))
             for step in case['history']:
                 for op in step['ops']:
                     for n, v in (op.get('defs') or {}).items():
@@ -373,7 +517,7 @@ def _check_layering(ctx, case, tree):
                         cur.pop(op['lid'], None)
                         pth.pop(op['lid'], None)
                     else:
-                        tree.write(op['path'], {n: 'role:' + role_of(op['lid'], v) for n, v in op['defs'].items()}, op['fmt'])
+                        tree.write(op['path'], {n: text_of(op['lid'], v) for n, v in op['defs'].items()}, op['fmt'])
                         dropped = dropped or bool(set(cur.get(op['lid'], ())) - set(op['defs']))
                         if op['lid'] == 'main' and cur.get('main') == op['defs']:
                             ctx.count('history_steps_main_resaved_identical')
@@ -385,6 +529,9 @@ def _check_layering(ctx, case, tree):
                 if dropped:
                     ctx.count('history_steps_names_dropped_or_file_deleted')
                 eff = fold_now(case['dirs'], cur, pth)
+                if case.get('restate') is not None:
+                    count_restated(ctx, {n: [cur[lid][n] for lid in fold_order(case['dirs'], cur, pth) if lid != 'default' and n in cur[lid]]
+                                         for n in names if n in defaulted}, 'history_steps')
                 try:
                     if step['load'] == 'explicit':
                         enf.load_rules()
@@ -448,12 +595,15 @@ H_OPS = ['drop', 'drop', 'resave-main', 'resave', 'change', 'delete', 'add']
 EXTRA_FILES = ['k1.yaml', 'A.yaml', 'zz9.json']
 
 
-def gen_history(rnd, case):
+def gen_history(rnd, case, restate_p=0.0):
     """2-3 steps on the living enforcer.  Each step: one or two operations on different files, then a load.
     Operations are stored by their outcome (the mapping name -> version the file holds afterwards) so that replay needs no
-    generator: {op, lid, path, defs|None, fmt}."""
+    generator: {op, lid, path, defs|None, fmt}.
+    restate_p > 0 (stratum R only; no draw is made otherwise): a name that gets new content in a regular file restates the
+    registered default with that probability (a negative version, see role_of)."""
     may_define = case['names'][:-1]                 # the last name stays defined nowhere, whatever happens
-    cur = {l[0]: {n: 0 for n in l[2]} for l in case['layers'] if l[1]}
+    cur = {l[0]: {n: first_version(case, l[0], n) for n in l[2]} for l in case['layers'] if l[1]}
+    defaulted = {n for l in case['layers'] if l[0] == 'default' for n in l[2]}
     pth = {l[0]: l[1] for l in case['layers'] if l[1]}
     fmts = dict(case['fmts'])
     real_dirs = [d for d in case['dirs'] if d != 'dmissing']
@@ -492,6 +642,12 @@ def gen_history(rnd, case):
                             defs[n] = cur[lid][n] if (n in cur[lid] and rnd.random() < 0.5) else fresh()
                     if defs == cur[lid]:
                         defs[may_define[0]] = fresh()
+                    if restate_p and not os.path.basename(pth[lid]).startswith('.'):
+                        for n in sorted(defs):
+                            if n in defaulted and defs[n] != cur[lid].get(n) and rnd.random() < restate_p:
+                                defs[n] = -1 - rnd.randrange(len(DEFAULT_SPELLINGS))
+                        if defs == cur[lid]:
+                            defs[may_define[0]] = fresh()
             elif kind == 'delete':
                 if in_dirs:
                     lid = rnd.choice(in_dirs)
@@ -508,6 +664,10 @@ def gen_history(rnd, case):
                     fmts[lid] = 'json' if lid.endswith('.json') else rnd.choice(['json', 'yaml', 'yaml-lines'])
                     v = fresh()
                     defs = {n: v for n in may_define if rnd.random() < 0.6} or {may_define[0]: v}
+                    if restate_p and not os.path.basename(lid).startswith('.'):
+                        for n in sorted(defs):
+                            if n in defaulted and rnd.random() < restate_p:
+                                defs[n] = -1 - rnd.randrange(len(DEFAULT_SPELLINGS))
             if lid is None:
                 continue
             ops.append({'op': kind, 'lid': lid, 'path': pth[lid], 'defs': defs, 'fmt': fmts.get(lid, 'json')})
@@ -621,6 +781,88 @@ def gen_ignored_history(rnd, case):
                 there.append(p)
                 there.sort()
     return [s for s in steps if s['ops']]
+
+
+def _documented_order(case):
+    """Layer ids of the regular files of a configuration, in the documented order."""
+    order = [l[0] for l in case['layers'] if l[0] == 'main']
+    for d in case['dirs']:
+        in_dir = sorted((l for l in case['layers'] if l[1] and os.path.dirname(l[1]) == d), key=lambda l: os.path.basename(l[1]))
+        order += [l[0] for l in in_dir if not os.path.basename(l[1]).startswith('.')]
+    return order
+
+
+def gen_restate_layering(rnd, i):
+    """Stratum R.  The layerings of Y (same files, own random source), the registered default always present; for the names it
+    defines, file layers may spell exactly the registered default (verbatim or as a textual variant) instead of their own role.
+    On every second index one name is arranged so that its LAST definer restates the default while the definer before it does
+    not.  The route by which policy_file / policy_dirs are configured is enumerated by the index."""
+    names = ['n1', 'n2', 'n3', 'n4']
+    slots = [('main', 'policy.yaml')]
+    for d in DIRS:
+        if d != 'dmissing':
+            slots += [(d + '/' + fn, d + '/' + fn) for fn in FILESETS[d]]
+    layers = [['default', None, {n: True for n in names[:3] if rnd.random() < 0.8} or {'n1': True}]]
+    for lid, p in slots:
+        if rnd.random() < 0.6:
+            layers.append([lid, p, {n: True for n in names[:3] if rnd.random() < 0.55}])
+    fmts = {l[0]: ('json' if l[1].endswith('.json') else rnd.choice(['json', 'yaml', 'yaml-lines'])) for l in layers if l[1]}
+    order = [l[0] for l in layers]
+    rnd.shuffle(order)
+    dirs = list(DIRS)
+    if rnd.random() < 0.3:
+        rnd.shuffle(dirs)
+    if rnd.random() < 0.25:
+        dirs.remove('dmissing')
+    case = dict(s='R', names=names, dirs=dirs, layers=layers, fmts=fmts, write_order=order, subdir=True, scoped=rnd.random() < 0.4,
+                rewrite=rnd.choice([0, 0, 1, 2, 3]), relative=rnd.random() < 0.4, route=ROUTES[i % 3], cfgpos=rnd.randrange(5))
+    defs_of = {l[0]: l[2] for l in layers}
+    doc = _documented_order(case)
+    restate = {}
+    for n in sorted(layers[0][2]):
+        definers = [lid for lid in doc if n in defs_of[lid]]
+        if rnd.random() < 0.75:
+            for lid in definers:
+                if rnd.random() < 0.35:
+                    restate.setdefault(lid, {})[n] = rnd.choice([0, 0, 1, 2, 3])
+    if i % 2 == 0:
+        # one name: the last definer restates the default, the one before it keeps its own role
+        able = [n for n in sorted(layers[0][2]) if sum(1 for lid in doc if n in defs_of[lid]) >= 2]
+        if able:
+            n = rnd.choice(able)
+            definers = [lid for lid in doc if n in defs_of[lid]]
+            restate.setdefault(definers[-1], {})[n] = rnd.choice([0, 0, 1, 2, 3])
+            restate.get(definers[-2], {}).pop(n, None)
+    case['restate'] = {lid: d for lid, d in restate.items() if d}
+    if rnd.random() < (0.6 if case['relative'] else 0.05):
+        case['cwd'] = rnd.choice(['all', 'all', 'missing'])
+    if rnd.random() < 0.35:
+        case['history'] = gen_history(rnd, case, restate_p=0.3)
+    return case
+
+
+def exhaustive_restate_layerings():
+    """Stratum RX.  One name with a registered default; the main file, d1/a.yaml, d1/b.yaml and d2/a.yaml each either do not
+    define it, give it their own role, restate the default verbatim, or restate it as a textual variant: 4^4 layerings.  A second
+    name keeps the per-layer roles in every file, a third is defined nowhere."""
+    slots = [('main', 'policy.yaml'), ('d1/a.yaml', 'd1/a.yaml'), ('d1/b.yaml', 'd1/b.yaml'), ('d2/a.yaml', 'd2/a.yaml')]
+    for i, states in enumerate(itertools.product(range(4), repeat=4)):
+        layers = [['default', None, {'n1': True, 'n2': True}]]
+        restate = {}
+        for j, ((lid, p), st) in enumerate(zip(slots, states)):
+            defs = {'n2': True} if (i + j) % 3 else {}
+            if st:
+                defs['n1'] = True
+            if st == 2:
+                restate[lid] = {'n1': 0}
+            elif st == 3:
+                restate[lid] = {'n1': 1 + (i + j) % 3}
+            if defs or (lid == 'main' and i % 2):
+                layers.append([lid, p, defs])
+        fmts = {l[0]: ('json', 'yaml', 'yaml-lines')[(i + k) % 3] for k, l in enumerate(layers) if l[1]}
+        yield dict(s='RX', names=['n1', 'n2', 'n3'], dirs=['d1', 'd2'], layers=layers, fmts=fmts,
+                   write_order=[l[0] for l in reversed(layers)], scoped=bool(i % 2), rewrite=(i % 3), restate=restate,
+                   route=ROUTES[i % 3], relative=bool((i // 3) % 2), cfgpos=i % 4)
 
 
 def exhaustive_layerings():
@@ -771,6 +1013,30 @@ def run(ctx):
         if i % 300 == 0:
             ctx.sample({'layers': {l[0]: sorted(l[2]) for l in case['layers']}, 'formats': case['fmts']}, 'X')
     ctx.stratum('X', exhaustive=done)
+    # RX / R: file layers that restate the registered default; the route by which the options are configured
+    done = True
+    for i, case in enumerate(exhaustive_restate_layerings()):
+        if not ctx.mine(i):
+            continue
+        if ctx.expired():
+            done = False
+            break
+        check_layering(ctx, case)
+        if i % 60 == 0:
+            ctx.sample({'layers': {l[0]: sorted(l[2]) for l in case['layers']}, 'restating': case['restate'], 'route': case['route'],
+                        'relative': case['relative']}, 'RX')
+    ctx.stratum('RX', exhaustive=done)
+    for i in range(N_RESTATE[ctx.tier]):
+        if not ctx.mine(i):
+            continue
+        if ctx.expired():
+            break
+        case = gen_restate_layering(ctx.sub_rnd('R', ctx.tier, i), i)
+        check_layering(ctx, case)
+        if i % 100 < ctx.nshards:
+            ctx.sample({'layers': {l[0]: sorted(l[2]) for l in case['layers']}, 'dirs': case['dirs'], 'restating': case['restate'],
+                        'route': case['route'], 'relative': case['relative'], 'written_in_order': case['write_order']}, 'R')
+    ctx.stratum('R', exhaustive=False)
     # I: layerings with many ignored entries (own random source per index: the draws of Y stay what they were)
     for i in range(N_IGNORED[ctx.tier]):
         if not ctx.mine(i):
